@@ -3,6 +3,7 @@
 mod breaks_test;
 
 use super::*;
+use crate::format::solution::activity_matcher::get_route_start_time;
 use crate::utils::combine_error_results;
 use std::iter::once;
 use vrp_core::prelude::GenericResult;
@@ -76,16 +77,20 @@ fn check_break_assignment(context: &CheckerContext) -> GenericResult<()> {
             .into());
         }
 
-        let departure = tour
-            .stops
-            .first()
-            .map(|stop| parse_time(&stop.schedule().departure))
-            .ok_or_else(|| GenericError::from(format!("cannot get departure for tour '{}'", tour.vehicle_id)))?;
+        // NOTE: when jobs are served at terminal stops, actual departure/arrival time is specified on activity level
+        let departure = get_route_start_time(tour)
+            .map_err(|_| GenericError::from(format!("cannot get departure for tour '{}'", tour.vehicle_id)))?;
 
         let arrival = tour
             .stops
             .last()
-            .map(|stop| parse_time(&stop.schedule().arrival))
+            .map(|stop| {
+                stop.activities()
+                    .last()
+                    .filter(|activity| activity.activity_type == "arrival")
+                    .and_then(|activity| activity.time.as_ref())
+                    .map_or_else(|| parse_time(&stop.schedule().arrival), |time| parse_time(&time.start))
+            })
             .ok_or_else(|| GenericError::from(format!("cannot get arrival for tour '{}'", tour.vehicle_id)))?;
 
         let tour_tw = TimeWindow::new(departure, arrival);
@@ -166,11 +171,8 @@ fn as_leg_info_with_break<'a>(
 
 /// Gets break time window.
 pub(crate) fn get_break_time_window(tour: &Tour, vehicle_break: &VehicleBreak) -> GenericResult<TimeWindow> {
-    let departure = tour
-        .stops
-        .first()
-        .map(|stop| parse_time(&stop.schedule().departure))
-        .ok_or_else(|| format!("cannot get departure time for tour: '{}'", tour.vehicle_id))?;
+    let departure = get_route_start_time(tour)
+        .map_err(|_| format!("cannot get departure time for tour: '{}'", tour.vehicle_id))?;
 
     match vehicle_break {
         VehicleBreak::Optional { time: VehicleOptionalBreakTime::TimeWindow(tw), .. } => Ok(parse_time_window(tw)),
